@@ -7,7 +7,10 @@ threshold, and only produces paths below the directory (C12.b); every backend DE
 level is bound to that level (and to the timestamp, when given), per-level backends unlink
 only the level's own file (C12.c); the whole-level strategies are only chosen for complete
 extents, otherwise the tile walk with the stale test removes tile by tile, and nothing else
-in the package calls remove_tile(s) (C12.d)."""
+in the package calls remove_tile(s) (C12.d).
+Added in round 4: level bounds are only compared with None, level 0 is a level (C12.h); an empty
+coverage is not "no coverage" (C12.i); a per-level cache claims tile time stamps only if its level
+databases have them (C12.j)."""
 import ast
 import re
 
